@@ -108,14 +108,24 @@ def locate : LegSpace → Nat → Option (Charge × Nat)
 
 def LegSpace.lookup (L : LegSpace) (t : Charge) : Option Nat := (L.find? (fun td => td.1 == t)).map (·.2)
 
-/-- `to_numpy(legs=L)`: value of the dense array at a multi-index -/
+/-- sector and position inside the sector that dense position `idx[i]` of leg `i` falls into -/
+def locAt (L : List LegSpace) (idx : List Nat) (i : Nat) : Option (Charge × Nat) :=
+  locate (L.getD i []) (idx.getD i 0)
+
+def keyAt (L : List LegSpace) (idx : List Nat) (n : Nat) : Key :=
+  (List.range n).map (fun i => ((locAt L idx i).getD ([], 0)).1)
+
+def posAt (L : List LegSpace) (idx : List Nat) (n : Nat) : List Nat :=
+  (List.range n).map (fun i => ((locAt L idx i).getD ([], 0)).2)
+
+/-- `to_numpy(legs=L)`: value of the dense array at a multi-index: the element of the block addressed
+by the located sectors, `0` if there is no such block (or the index lies outside the leg spaces). -/
 def toDenseOn {R} [Zero R] (L : List LegSpace) (T : Tensor R) (idx : List Nat) : R :=
-  match (List.zipWith locate L idx).mapM id with
-  | none => 0
-  | some locs =>
-    match T.get? (locs.map (·.1)) with
+  if (List.range T.rank).all (fun i => (locAt L idx i).isSome) then
+    match T.get? (keyAt L idx T.rank) with
     | none => 0
-    | some b => b.val (locs.map (·.2))
+    | some b => b.val (posAt L idx T.rank)
+  else 0
 
 def toDense {R} [Zero R] (T : Tensor R) : List Nat → R := toDenseOn (legSpaces T) T
 
